@@ -1013,7 +1013,7 @@ PP/Proofs/GenIso.lean and PP/Props/GenIso.lean prove each definition equal to th
 (`PP.evalIso`, `PP.iso11`, `PP.iso3` of PP/Model/Map.lean).
 
 NOT MODELLED: wrap-around of `usize` subtraction (a build without overflow checks): `I.usub` is `none` on
-underflow.  NOT TRANSLATED (not in /repo): array / slice indexing, `split_at_mut`, ranges, `len` (core) are the
+underflow; `+ * / %` on `usize` are the exact operations on `Nat`.  NOT TRANSLATED (not in /repo): array / slice indexing, `split_at_mut`, ranges, `len` (core) are the
 list operations above.
 -/
 import PP.Gen.Arith
@@ -1072,7 +1072,7 @@ def translate(repo_dir):
 
     def item(name, rel, a, b):
         raw, src = load(rel)
-        items.append({"item": "iso:" + name, "file": rel,
+        items.append({"item": "isoeval:" + name, "file": rel,
                       "lines": [src.count("\n", 0, a) + 1, src.count("\n", 0, b) + 1],
                       "sha256": hashlib.sha256(raw[a:b].encode()).hexdigest()})
 
